@@ -224,10 +224,10 @@ def oracle(case):
         sig = 'set:' + c09.features({'op': 'get', 'obj': t, 'index': a['index']})
         if scalar_like(a['index']):
             sig = 'set:scalar-index-path'
-        elif sig == 'set:arrays-separated' and lower_rank_rhs(t['shape'], a):
-            sig = 'set:relocated-lower-rank-rhs'
         elif no_unused_index(t['shape'], a['index']):
             sig = 'set:no-unused-index'
+        elif sig == 'set:arrays-separated' and lower_rank_rhs(t['shape'], a):
+            sig = 'set:relocated-lower-rank-rhs'
         where = 'step %d of %s: target[%s] = rhs%s' % (step, describe(case), repr(R.mk_index(a)).replace('\n', ' ')[:200], a['rhs']['shape'])
         if err == 'ValueError':
             return None                    # right-hand side does not broadcast: not specified by the property
